@@ -282,6 +282,33 @@ class Sym(_Base):
             finally:
                 _COUNT_REAL[0] = prev
 
+    def _witness_quiet(self):
+        """Witness of the current path read from a z3 model WITHOUT going
+        through the state space: ``deep_realize`` adds value-choice nodes to
+        the decision tree (measured: a sub-harness of 91 paths did not exhaust
+        in 1976 paths when every path was realised), so it is only used when a
+        path ends in a violation.  Returns None if no model is available."""
+        with NoTracing():
+            solver = self.space.solver
+            try:
+                if solver.check() != z3.sat:
+                    return None
+                model = solver.model()
+            except z3.Z3Exception:
+                return None
+            out = collections.OrderedDict()
+            for k, v in self.named.items():
+                if isinstance(v, SymbolicInt):
+                    out[k] = model.eval(v.var, model_completion=True).as_long()
+                elif isinstance(v, SymbolicBool):
+                    out[k] = z3.is_true(model.eval(v.var,
+                                                   model_completion=True))
+                elif isinstance(v, (bool, int, str)) or v is None:
+                    out[k] = v
+                else:
+                    return None      # symbolic str etc.: not supported here
+            return out
+
     def _fail(self, label, info=None):
         w = self._witness()
         for fid, pred in self.known:
@@ -465,11 +492,16 @@ def explore(fn, budget_s=600.0, per_path_timeout=60.0, known=None,
                     for r in S.reached:
                         res['reached'][r] += 1
                     if len(res['samples']) < keep_samples:
-                        _COUNT_REAL[0] = False
-                        try:
-                            res['samples'].append(_jsonable(S._witness()))
-                        finally:
-                            _COUNT_REAL[0] = True
+                        wq = S._witness_quiet()
+                        if wq is not None:
+                            res['samples'].append(_jsonable(wq))
+                        elif len(res['samples']) < 3:
+                            _COUNT_REAL[0] = False
+                            try:
+                                res['samples'].append(
+                                    _jsonable(S._witness()))
+                            finally:
+                                _COUNT_REAL[0] = True
                     if on_complete is not None:
                         on_complete(S)
                 except Known as k:
